@@ -437,6 +437,27 @@ func collectSites(doc Obj) []site {
 				if br, ok := s.Get(kw); ok {
 					if ba, ok := br.([]any); ok {
 						out = append(out, site{path: append(append([]any{}, path...), kw), class: "refbranch:" + kw})
+						// a property name that occurs in several branches is merged (first wins):
+						// only names unique across the branches are positions that get generated
+						count := map[string]int{}
+						for _, b := range ba {
+							if bo, ok := b.(Obj); ok {
+								if props, ok := bo.Get("properties"); ok {
+									if po, ok := props.(Obj); ok {
+										for _, kv := range po {
+											count[kv.K]++
+										}
+									}
+								}
+							}
+						}
+						if props, ok := s.Get("properties"); ok {
+							if po, ok := props.(Obj); ok {
+								for _, kv := range po {
+									count[kv.K]++
+								}
+							}
+						}
 						for i, b := range ba {
 							bo, ok := b.(Obj)
 							if !ok {
@@ -448,7 +469,9 @@ func collectSites(doc Obj) []site {
 							if props, ok := bo.Get("properties"); ok {
 								if po, ok := props.(Obj); ok {
 									for _, kv := range po {
-										out = append(out, site{path: append(append([]any{}, path...), kw, i, "properties"), class: "branchprop:" + kw, key: kv.K})
+										if count[kv.K] == 1 {
+											out = append(out, site{path: append(append([]any{}, path...), kw, i, "properties"), class: "branchprop:" + kw, key: kv.K})
+										}
 									}
 								}
 							}
@@ -501,6 +524,38 @@ func setAt(v any, path []any, fn func(any) any) any {
 	return v
 }
 
+var defectWraps = []string{"none", "none", "array-item", "array2-item", "object-prop", "anyOf-objbranch-first", "anyOf-objbranch-last",
+	"anyOf-arraybranch-first", "anyOf-arraybranch-last", "allOf-objbranch-first", "allOf-objbranch-last"}
+
+// wrapDefect places the ungeneratable element d at a property / array item
+// position inside a larger subschema (the statement: "at any depth, including
+// inside allOf/anyOf branches").
+func wrapDefect(kind string, d any) any {
+	obj := func(name string, v any) Obj { return Obj{{"type", "object"}, {"properties", Obj{{name, v}}}} }
+	other := obj("zr", Obj{{"type", "string"}})
+	switch kind {
+	case "array-item":
+		return Obj{{"type", "array"}, {"items", d}}
+	case "array2-item":
+		return Obj{{"type", "array"}, {"items", Obj{{"type", "array"}, {"items", d}}}}
+	case "object-prop":
+		return obj("zq", d)
+	case "anyOf-objbranch-first":
+		return Obj{{"anyOf", []any{obj("zq", d), other}}}
+	case "anyOf-objbranch-last":
+		return Obj{{"anyOf", []any{other, obj("zq", d)}}}
+	case "anyOf-arraybranch-first":
+		return Obj{{"anyOf", []any{Obj{{"type", "array"}, {"items", d}}, other}}}
+	case "anyOf-arraybranch-last":
+		return Obj{{"anyOf", []any{other, Obj{{"type", "array"}, {"items", d}}}}}
+	case "allOf-objbranch-first":
+		return Obj{{"allOf", []any{obj("zq", d), other}}}
+	case "allOf-objbranch-last":
+		return Obj{{"allOf", []any{other, obj("zq", d)}}}
+	}
+	return d
+}
+
 var defectKinds = []string{"unknown-type", "ref-missing-def", "ref-missing-file", "enum-empty", "enum-empty-typed", "enum-nonprimitive", "enum-nonprimitive-typed", "enum-nonprimitive-integer"}
 
 func defectValue(kind string) any {
@@ -539,6 +594,21 @@ func genDefect(t *rapid.T, w *World, args []string, add addFn, feature string) {
 		kind = rapid.SampledFrom([]string{"ref-missing-def", "ref-missing-file"}).Draw(t, "dkindref")
 	}
 	val := defectValue(kind)
+	// wrap the defect so that it sits at some depth / inside a combinator branch
+	wrap := "none"
+	if !strings.HasPrefix(s.class, "refbranch") {
+		wrap = rapid.SampledFrom(defectWraps).Draw(t, "dwrap")
+		if !strings.HasPrefix(s.class, "prop") && !strings.HasPrefix(s.class, "branchprop") && (strings.HasPrefix(wrap, "anyOf") || strings.HasPrefix(wrap, "allOf")) {
+			// a type-less combinator at a declared-type position (definition, array items) is
+			// mapped to interface{} without being visited: not "an element that cannot be
+			// generated" in the statement's sense, hence not judged
+			wrap = "object-prop"
+		}
+		val = wrapDefect(wrap, val)
+		if wrap != "none" {
+			s.class += "+" + wrap
+		}
+	}
 	var doc Obj
 	switch {
 	case s.class == "def":
@@ -549,7 +619,9 @@ func genDefect(t *rapid.T, w *World, args []string, add addFn, feature string) {
 			i := rapid.IntRange(0, len(a)).Draw(t, "branchat")
 			return append(a[:i:i], append([]any{val}, a[i:]...)...)
 		}).(Obj)
-	case s.class == "item":
+	case strings.HasPrefix(s.class, "def"):
+		doc = withDef(cloneObj(f.Doc), strings.ToUpper(f.Tag[:1])+f.Tag[1:]+"Zbad", val)
+	case strings.HasPrefix(s.class, "item"):
 		doc = setAt(f.Doc, s.path, func(v any) any { return append(Obj{}, v.(Obj)...).Set("items", val) }).(Obj)
 	default:
 		doc = setAt(f.Doc, s.path, func(v any) any { return append(Obj{}, v.(Obj)...).Set(s.key, val) }).(Obj)
